@@ -1,7 +1,11 @@
-/- driver handlers for stream C05 (modpow / modinv / Montgomery internals) -/
+/- driver handlers for stream C05 (modpow / modinv / Montgomery internals).
+   The model column of u.modpow, i.modpow, u.modinv, i.modinv, u.plain_modpow, u.monty_modpow is computed by
+   the DIGIT-LEVEL definitions of NB.Model.ModPowD (every BigUint operator = its digit-vector model), at every
+   operand size (no cap). -/
 import NB.Wire
 import NB.Model.Monty
 import NB.Model.ModPow
+import NB.Model.ModPowD
 import NB.Model.AsmParams
 namespace NB.Drv.C05
 open NB NB.Wire
@@ -71,31 +75,28 @@ def showOptI : Except Panic (Option BigInt) → String
   | .ok r => showOpt showBigInt r
   | .error p => "panic " ++ p.toString
 
-def showOptU : Except Panic (Option Nat) → String
-  | .ok (some v) => "some " ++ showLimbs (ofNat v)
-  | .ok none => "none"
+def showOptU : Except Panic (Option (List Nat)) → String
+  | .ok r => showOpt showLimbs r
   | .error p => "panic " ++ p.toString
 
 def handle (op : String) (args : List String) : Option (String × String) :=
   match op, args with
   | "u.modpow", [b, e, m] => do
     let b ← parseLimbs b; let e ← parseLimbs e; let m ← parseLimbs m
-    pure (su (modpowU P b e m), oModpowU (val b) (val e) (val m))
+    pure (su (modpowD P b e m), oModpowU (val b) (val e) (val m))
   | "i.modpow", [b, e, m] => do
     let b ← parseBigInt b; let e ← parseBigInt e; let m ← parseBigInt m
-    pure (si (BigInt.modpow P b e m), oModpowI b.val e.val m.val)
+    pure (si (BigInt.modpowD P b e m), oModpowI b.val e.val m.val)
   | "u.modinv", [a, m] => do
     let a ← parseLimbs a; let m ← parseLimbs m
-    pure (showOptU (modinvU (val a) (val m)), oModinvU (val a) (val m))
+    pure (showOptU (modinvD P a m), oModinvU (val a) (val m))
   | "i.modinv", [a, m] => do
     let a ← parseBigInt a; let m ← parseBigInt m
-    pure (showOptI (BigInt.modinv a m), oModinvI a.val m.val)
+    pure (showOptI (BigInt.modinvD P a m), oModinvI a.val m.val)
   -- the two routines behind the parity dispatch, each on any modulus it accepts
   | "u.plain_modpow", [b, e, m] => do
     let b ← parseLimbs b; let e ← parseLimbs e; let m ← parseLimbs m
-    let r := match plainModpow (val b) e (val m) with
-      | .ok v => su (.ok (ofNat v))
-      | .error p => su (.error p)
+    let r := su (plainModpowD P b e m)
     -- `plain_modpow` answers 1 for a zero exponent whatever the modulus (it is only ever
     -- called with an even modulus)
     let o := if val m = 0 then "panic zeromod"
@@ -104,7 +105,7 @@ def handle (op : String) (args : List String) : Option (String × String) :=
     pure (r, o)
   | "u.monty_modpow", [b, e, m] => do
     let b ← parseLimbs b; let e ← parseLimbs e; let m ← parseLimbs m
-    pure (su (montyModpow P b e m), oModpowU (val b) (val e) (val m))
+    pure (su (montyModpowD P b e m), oModpowU (val b) (val e) (val m))
   -- internal hooks on raw digit vectors
   | "raw.montgomery", [x, y, m, k, n] => do
     let x ← parseLimbs x; let y ← parseLimbs y; let m ← parseLimbs m
